@@ -34,72 +34,70 @@ def _model_dict(m, limit=400):
     return out
 
 
-PORTFOLIO = [({'smt.mbqi': False, 'smt.arith.nl': False}, 0.25),
-             ({'smt.mbqi': False}, 0.4),
-             ({}, 0.35)]
+# stages: (number of most recent quantified hypotheses kept (None = all), solver options)
+STAGES = [(0, {'smt.mbqi': False, 'smt.arith.nl': False}), (0, {'smt.mbqi': False}),
+          (4, {'smt.mbqi': False, 'smt.arith.nl': False}), (4, {'smt.mbqi': False}),
+          (12, {'smt.mbqi': False, 'smt.arith.nl': False}), (12, {'smt.mbqi': False}), (40, {'smt.mbqi': False}),
+          (None, {'smt.mbqi': False, 'smt.arith.nl': False}), (None, {'smt.mbqi': False}), (None, {})]
 
 
-def _check(args):
-    """Portfolio: an `unsat` of any configuration is a proof (each only removes inference power);
-    `sat` is accepted from any configuration (z3 reports sat only with a model of the whole input,
-    quantifiers included); otherwise unknown, keeping a candidate model for the replay harness."""
-    name, smt, timeout_ms, expect_sat, want_model = args
+def _stage(args):
+    """One solver configuration on one obligation.  A proof from a SUBSET of the hypotheses is still a proof (`unsat`
+    only); `sat` is accepted only with ALL hypotheses present (z3 reports sat with a model of the whole input)."""
+    name, stage_id, smt, timeout_ms, expect_sat, want_model = args
+    k, opts = STAGES[stage_id]
     t0 = time.time()
-    cand = None
-    reason = ''
     try:
         ctx = z3.Context()      # a private context per query: solving must not depend on what was generated before
-        if not expect_sat:
-            # stages with fewer hypotheses (a proof from a subset of the hypotheses is still a proof):
-            # all quantifier-free hypotheses, plus only the k most recent quantified ones
+        s = z3.Solver(ctx=ctx)
+        s.set('timeout', timeout_ms)
+        for kk, v in opts.items():
+            s.set(kk, v)
+        if k is None or expect_sat:
+            s.from_string(smt)
+            full_hyps = True
+        else:
             full = z3.parse_smt2_string(smt, ctx=ctx)
             goal_neg = full[len(full) - 1]
             qf, quant = [], []
             for a in list(full)[:-1]:
                 sx = a.sexpr()
                 (quant if ('(forall ' in sx or '(exists ' in sx) else qf).append(a)
-            for k, share, nl in ((0, 0.05, False), (0, 0.05, True), (4, 0.05, False), (4, 0.06, True),
-                                 (12, 0.05, False), (12, 0.08, True), (40, 0.1, True)):
-                if k and k >= len(quant):
-                    break
-                s0 = z3.Solver(ctx=ctx)
-                s0.set('timeout', max(200, int(timeout_ms * share)))
-                s0.set('smt.mbqi', False)
-                if not nl:
-                    s0.set('smt.arith.nl', False)
-                s0.add(*qf)
-                if k:
-                    s0.add(*quant[-k:])
-                s0.add(goal_neg)
-                if s0.check() == z3.unsat:
-                    return (name, PROVED, time.time() - t0, None, 'z3:hyps-qf+last%dq' % k)
-        for opts, share in PORTFOLIO:
-            s = z3.Solver(ctx=ctx)
-            s.set('timeout', max(200, int(timeout_ms * share)))
-            for k, v in opts.items():
-                s.set(k, v)
-            s.from_string(smt)
-            r = s.check()
-            dt = time.time() - t0
-            if r == z3.unsat:
-                return (name, REFUTED if expect_sat else PROVED, dt, None, 'z3' + (':' + ','.join(opts) if opts else ''))
-            if r == z3.sat:
-                md = None
-                if want_model and not expect_sat:
-                    try:
-                        md = _model_dict(s.model())
-                    except Exception as e:
-                        md = {'_error': str(e)}
-                return (name, PROVED if expect_sat else REFUTED, dt, md, 'z3')
-            reason = s.reason_unknown()
-            if cand is None and want_model and 'incomplete' in reason:
+            full_hyps = k >= len(quant)
+            s.add(*qf)
+            if k:
+                s.add(*quant[-k:])
+            s.add(goal_neg)
+        r = s.check()
+        dt = time.time() - t0
+        tag = 'z3:%s%s' % ('all-hyps' if k is None else 'qf+last%dq' % k, ''.join(',' + o.split('.')[-1] + '=off' for o in opts))
+        if r == z3.unsat:
+            return (name, stage_id, REFUTED if expect_sat else PROVED, dt, None, tag)
+        if r == z3.sat and full_hyps:
+            md = None
+            if want_model and not expect_sat:
                 try:
-                    cand = _model_dict(s.model())
-                except Exception:
-                    cand = None
-        return (name, UNKNOWN, time.time() - t0, {'reason': reason, 'candidate_model': cand}, 'z3')
+                    md = _model_dict(s.model())
+                except Exception as e:
+                    md = {'_error': str(e)}
+            return (name, stage_id, PROVED if expect_sat else REFUTED, dt, md, tag)
+        return (name, stage_id, UNKNOWN, dt, {'reason': s.reason_unknown() if r == z3.unknown else 'sat on a subset of the hypotheses'}, tag)
     except Exception as e:          # solver crash is never a verdict
-        return (name, UNKNOWN, time.time() - t0, {'reason': 'z3 error: %r' % (e,)}, 'z3')
+        return (name, stage_id, UNKNOWN, time.time() - t0, {'reason': 'z3 error: %r' % (e,)}, 'z3')
+
+
+def _check(args):
+    """sequential fallback (used for tiny batches): stages in order"""
+    name, smt, timeout_ms, expect_sat, want_model = args
+    t0 = time.time()
+    last = None
+    stages = [len(STAGES) - 1] if expect_sat else range(len(STAGES))
+    for sid in stages:
+        r = _stage((name, sid, smt, timeout_ms if (sid >= 7 or expect_sat) else max(300, timeout_ms // 10), expect_sat, want_model))
+        last = r
+        if r[2] != UNKNOWN:
+            return (name, r[2], time.time() - t0, r[4], r[5])
+    return (name, UNKNOWN, time.time() - t0, last[4], 'z3')
 
 
 def cvc5_check(smt, timeout_s, expect_sat):
@@ -131,37 +129,74 @@ def _check_cvc5(args):
 
 
 def discharge(obls, timeout_s=10, procs=None, use_cvc5=True, log=None):
-    """-> list of result dicts in the order of obls"""
+    """-> list of result dicts in the order of obls.
+    Round 1: one cheap configuration per obligation.  Round 2: every remaining configuration of every still-open
+    obligation is launched concurrently; the first proof (or full-hypothesis refutation) wins and the pool is
+    terminated once every obligation has a verdict or has exhausted its configurations."""
     procs = procs or min(16, os.cpu_count() or 4)
+    smts = [to_smt2(ob) for ob in obls]
+    verdict = {}
+    t_spent = {n: 0.0 for n in range(len(obls))}
+    info = {}
+    ctx = multiprocessing.get_context('fork')
+
+    def budget(n):
+        return int((min(timeout_s, 3) if obls[n].expect_sat else timeout_s) * 1000)
+    # round 1
     jobs = []
     for n, ob in enumerate(obls):
-        # cover (vacuity) obligations get a short budget: a native witness is the fallback
-        budget = min(timeout_s, 3) if ob.expect_sat else timeout_s
-        jobs.append(("%d" % n, to_smt2(ob), int(budget * 1000), ob.expect_sat, True))
-    results = {}
-    if len(jobs) <= 2 or procs == 1:
-        for j in jobs:
-            r = _check(j)
-            results[r[0]] = r
-    else:
-        ctx = multiprocessing.get_context('fork')
-        with ctx.Pool(min(procs, len(jobs))) as pool:
-            for r in pool.imap_unordered(_check, jobs, chunksize=1):
-                results[r[0]] = r
-    unknown = [j for j in jobs if results[j[0]][1] == UNKNOWN]
-    if use_cvc5 and unknown:
-        cj = [(j[0], j[1], timeout_s, j[3]) for j in unknown]
-        ctx = multiprocessing.get_context('fork')
+        if ob.expect_sat:
+            jobs.append((n, len(STAGES) - 1, smts[n], budget(n), True, False))
+        else:
+            jobs.append((n, 1, smts[n], min(2000, budget(n)), False, True))
+    if jobs:
+        with ctx.Pool(min(procs, max(1, len(jobs)))) as pool:
+            for r in pool.imap_unordered(_stage, jobs, chunksize=1):
+                n = r[0]
+                t_spent[n] += r[3]
+                info[n] = r
+                if r[2] != UNKNOWN:
+                    verdict[n] = r
+    # round 2
+    open_n = [n for n in range(len(obls)) if n not in verdict and not obls[n].expect_sat]
+    if open_n:
+        jobs = []
+        for sid in range(len(STAGES)):
+            for n in open_n:
+                if sid == 1:
+                    tmo = budget(n)         # the round-1 configuration again with the full budget
+                else:
+                    tmo = budget(n)
+                jobs.append((n, sid, smts[n], tmo, False, True))
+        pending = {n: len(STAGES) for n in open_n}
+        pool = ctx.Pool(min(procs, len(jobs)))
+        try:
+            for r in pool.imap_unordered(_stage, jobs, chunksize=1):
+                n = r[0]
+                pending[n] -= 1
+                t_spent[n] = max(t_spent[n], r[3])
+                if n not in verdict:
+                    info[n] = r if r[2] != UNKNOWN or n not in info or info[n][2] == UNKNOWN else info[n]
+                    if r[2] != UNKNOWN:
+                        verdict[n] = r
+                if all((m in verdict) or pending[m] == 0 for m in open_n):
+                    break
+        finally:
+            pool.terminate()
+            pool.join()
+    # cvc5 second opinion on what is still unknown (proofs only)
+    still = [n for n in range(len(obls)) if n not in verdict and not obls[n].expect_sat]
+    if use_cvc5 and still:
+        cj = [("%d" % n, smts[n], min(timeout_s, 20), False) for n in still]
         with ctx.Pool(min(procs, len(cj))) as pool:
             for r in pool.imap_unordered(_check_cvc5, cj, chunksize=1):
-                # cvc5 is trusted for proofs only; its `sat` on quantified input is not a refutation
-                if r[1] == PROVED and not obls[int(r[0])].expect_sat:
-                    results[r[0]] = r
-                elif r[1] == PROVED and obls[int(r[0])].expect_sat:
-                    results[r[0]] = r
+                if r[1] == PROVED:
+                    n = int(r[0])
+                    verdict[n] = (n, -1, PROVED, r[2], None, 'cvc5')
     out = []
     for n, ob in enumerate(obls):
-        name, verdict, dt, info, backend = results["%d" % n]
-        out.append(dict(name=ob.name, kind=ob.kind, fn=ob.fn, lineno=ob.lineno, verdict=verdict, time=dt,
-                        backend=backend, info=info, trail=ob.trail, props=ob.props, expect_sat=ob.expect_sat))
+        r = verdict.get(n) or info.get(n) or (n, -1, UNKNOWN, 0.0, {'reason': 'not run'}, 'z3')
+        out.append(dict(name=ob.name, kind=ob.kind, fn=ob.fn, lineno=ob.lineno, verdict=r[2] if n in verdict else UNKNOWN,
+                        time=t_spent.get(n, r[3]), backend=r[5], info=r[4], trail=ob.trail, props=ob.props,
+                        expect_sat=ob.expect_sat))
     return out
